@@ -62,6 +62,22 @@ BrokenPrimitivesFail == \A cat \in Cats : \A n \in DOMAIN DB[cat] : Broken(n) =>
 \* which entries the rule covers (vacuity guard: read by the harness)
 Covered == {<<cat, n>> : cat \in Cats, n \in UNION {DOMAIN DB[c] : c \in Cats}} \cap {<<cat, n>> \in (Cats \X UNION {DOMAIN DB[c] : c \in Cats}) : InDb(cat, n) /\ Broken(n)}
 
+\* --- policy listing (-L): only the newest version of each policy is listed, all versions with -v -------------------
+IndexOfSub(str, sub) == LET I == {i \in 1..(Len(str) - Len(sub) + 1) : SubSeq(str, i, i + Len(sub) - 1) = sub} IN
+                        IF I = {} THEN 0 ELSE CHOOSE i \in I : \A j \in I : i <= j
+Base(p) == LET i == IndexOfSub(p, " (version ") IN IF i = 0 THEN p ELSE SubSeq(p, 1, i - 1)
+DigitOf(c) == CASE c = "0" -> 0 [] c = "1" -> 1 [] c = "2" -> 2 [] c = "3" -> 3 [] c = "4" -> 4 [] c = "5" -> 5
+                [] c = "6" -> 6 [] c = "7" -> 7 [] c = "8" -> 8 [] c = "9" -> 9 [] OTHER -> 0
+RECURSIVE NumOf(_, _)
+NumOf(str, acc) == IF str = "" THEN acc ELSE NumOf(SubSeq(str, 2, Len(str)), acc * 10 + DigitOf(CharAt(str, 1)))
+Ver(p) == NumOf(Pol[p].version, 0)
+Latest(p) == \A q \in DOMAIN Pol : (Base(q) = Base(p) /\ Pol[q].server = Pol[p].server) => Ver(q) <= Ver(p)
+\* every policy name carries its own version, so that an older version can be told from the newest
+NamesCarryVersion == \A p \in DOMAIN Pol : IndexOfSub(p, " (version " \o Pol[p].version \o ")") > 0
+Listing == PrintT(ToJson([latest_server |-> {p \in DOMAIN Pol : Latest(p) /\ Pol[p].server},
+                          latest_client |-> {p \in DOMAIN Pol : Latest(p) /\ ~Pol[p].server},
+                          all |-> DOMAIN Pol]))
+
 VARIABLE x
 Init == x = 0
 Next == x' = x
